@@ -56,6 +56,7 @@ const (
 // Out collects the observable line of one case.
 type Out struct {
 	conc   bool
+	alias  bool // aliasing observables instead of destination contents
 	ctorOK bool
 	b      strings.Builder
 }
@@ -141,6 +142,11 @@ func (o *Out) Call(mk Exec) {
 		o.b.WriteString("skip -")
 		return
 	}
+	if o.alias {
+		src, run := mk()
+		o.b.WriteString(execAlias(src, run))
+		return
+	}
 	if !o.conc {
 		src, run := mk()
 		o.b.WriteString(execOnce(src, run, nil))
@@ -180,8 +186,148 @@ func (o *Out) Call(mk Exec) {
 // Pure runs one package-level copier.CopyTo call (always, once).
 func (o *Out) Pure(mk Exec) {
 	o.b.WriteString(" | ")
+	if o.alias {
+		o.b.WriteString("-")
+		return
+	}
 	src, run := mk()
 	o.b.WriteString(execOnce(src, run, nil))
+}
+
+// ---------------------------------------------------------------- aliasing observables
+
+// fullSlices makes the printer include the cells between len and cap of every slice.
+var fullSlices bool
+
+// deepSnap prints what p points to cell by cell, slices up to their capacity.
+func deepSnap(p any) (s string) {
+	defer func() {
+		if r := recover(); r != nil {
+			s = "snap-panic"
+		}
+		fullSlices = false
+	}()
+	fullSlices = true
+	return ShowPtr(p)
+}
+
+// identities collects the pointer cells, backing arrays and maps reachable from v through
+// struct fields and pointers (not through slice / map elements).
+func identities(v reflect.Value, set map[string]bool) {
+	switch v.Kind() {
+	case reflect.Struct:
+		if v.Type() == timeType {
+			return
+		}
+		for i := 0; i < v.NumField(); i++ {
+			identities(v.Field(i), set)
+		}
+	case reflect.Pointer:
+		if !v.IsNil() {
+			if v.Type().Elem().Size() > 0 { // zero-size objects all live at one address
+				set[fmt.Sprintf("p:%x", v.Pointer())] = true
+			}
+			identities(v.Elem(), set)
+		}
+	case reflect.Slice:
+		if !v.IsNil() && v.Cap() > 0 {
+			set[fmt.Sprintf("s:%x", v.Pointer())] = true
+		}
+	case reflect.Map:
+		if !v.IsNil() {
+			set[fmt.Sprintf("m:%x", v.Pointer())] = true
+		}
+	}
+}
+
+// aliasWalk prints, for every pointer / slice / map position of v (same traversal), N for nil,
+// E for a slice without cells, S when the cell / array / map is one of the source's, F otherwise.
+func aliasWalk(b *strings.Builder, v reflect.Value, set map[string]bool) {
+	mark := func(key string) {
+		if set[key] {
+			b.WriteByte('S')
+		} else {
+			b.WriteByte('F')
+		}
+	}
+	switch v.Kind() {
+	case reflect.Struct:
+		if v.Type() == timeType {
+			return
+		}
+		for i := 0; i < v.NumField(); i++ {
+			aliasWalk(b, v.Field(i), set)
+		}
+	case reflect.Pointer:
+		if v.IsNil() {
+			b.WriteByte('N')
+			return
+		}
+		if v.Type().Elem().Size() == 0 {
+			b.WriteByte('Z') // pointer to a zero-size object: no identity
+		} else {
+			mark(fmt.Sprintf("p:%x", v.Pointer()))
+		}
+		aliasWalk(b, v.Elem(), set)
+	case reflect.Slice:
+		switch {
+		case v.IsNil():
+			b.WriteByte('N')
+		case v.Cap() == 0:
+			b.WriteByte('E')
+		default:
+			mark(fmt.Sprintf("s:%x", v.Pointer()))
+		}
+	case reflect.Map:
+		if v.IsNil() {
+			b.WriteByte('N')
+			return
+		}
+		mark(fmt.Sprintf("m:%x", v.Pointer()))
+	}
+}
+
+// one execution in alias mode: STATUS, whether the source is unchanged cell by cell (slices up
+// to cap), and which references of the destination are the source's
+func execAlias(src any, run func() (any, error)) string {
+	before := deepSnap(src)
+	var dst any
+	var err error
+	panicked := func() (p bool) {
+		defer func() {
+			if r := recover(); r != nil {
+				p = true
+			}
+		}()
+		dst, err = run()
+		return false
+	}()
+	after := deepSnap(src)
+	mod := ""
+	if before != after {
+		mod = "!srcmod"
+	}
+	if panicked {
+		return "panic" + mod + " -"
+	}
+	st := "ok"
+	if err != nil {
+		st = "err:" + errClass(err)
+	}
+	set := map[string]bool{}
+	if src != nil {
+		if sv := reflect.ValueOf(src); sv.Kind() == reflect.Pointer && !sv.IsNil() {
+			identities(sv.Elem(), set)
+		}
+	}
+	var b strings.Builder
+	b.WriteString("A:")
+	if dst != nil {
+		if dv := reflect.ValueOf(dst); dv.Kind() == reflect.Pointer && !dv.IsNil() {
+			aliasWalk(&b, dv.Elem(), set)
+		}
+	}
+	return st + mod + " " + b.String()
 }
 
 // ---------------------------------------------------------------- canonical printer
@@ -284,7 +430,13 @@ func show(b *strings.Builder, v reflect.Value) {
 			return
 		}
 		b.WriteString("(sl")
-		for i := 0; i < v.Len(); i++ {
+		n := v.Len()
+		if fullSlices && v.Cap() > n { // deep snapshot: also the cells between len and cap
+			v = v.Slice(0, v.Cap())
+			b.WriteString(" len=" + strconv.Itoa(n))
+			n = v.Len()
+		}
+		for i := 0; i < n; i++ {
 			b.WriteByte(' ')
 			show(b, v.Index(i))
 		}
@@ -359,16 +511,20 @@ func show(b *strings.Builder, v reflect.Value) {
 
 // Main prints one observable line per compiled-in case.
 func Main(args []string) {
-	conc := false
+	conc, alias := false, false
 	var only []int
 	for _, a := range args {
 		if a == "conc" {
 			conc = true
 			continue
 		}
+		if a == "alias" {
+			alias = true
+			continue
+		}
 		n, err := strconv.Atoi(a)
 		if err != nil {
-			fmt.Fprintln(os.Stderr, "usage: h c20 [conc] [idx ...]")
+			fmt.Fprintln(os.Stderr, "usage: h c20 [conc|alias] [idx ...]")
 			os.Exit(2)
 		}
 		only = append(only, n)
@@ -385,7 +541,7 @@ func Main(args []string) {
 			os.Stdout.WriteString("nocase\n")
 			continue
 		}
-		o := &Out{conc: conc}
+		o := &Out{conc: conc, alias: alias}
 		func() {
 			defer func() {
 				if r := recover(); r != nil {
